@@ -1268,6 +1268,7 @@ def make_engine(modname, repo=None):
     eng.ground_forall = getattr(m, 'GROUND_FORALL', [])
     eng.inductive = getattr(m, 'INDUCTIVE_LEMMAS', [])
     eng.opaque_lists = set(getattr(m, 'OPAQUE_LISTS', ()))
+    eng.join_fold = getattr(m, 'JOIN_FOLD', None)
     eng.prefix_folds = getattr(m, 'PREFIX_FOLDS', [])
     for f_ in eng.prefix_folds:
         if not any(f_ + '-reads-only-its-prefix' == lab for lab, _, _ in eng.inductive):
